@@ -33,7 +33,7 @@ def char_param(name, strings, width=None, desc='', locked=False, dims_tail=None)
     for x in strings: vals += padded(x, width)
     return Param(name, -1, [width] + (dims_tail if dims_tail is not None else [len(strings)]), vals, desc, locked)
 
-def make_content(S, P=2, C=1, sub=2, F=2, labels='equal', analog='full', extras=(), first=1, events=0, label_len=4, gid_map=None, symbolic_meta=True, desc_len=2, reserved=False):
+def make_content(S, P=2, C=1, sub=2, F=2, labels='equal', analog='full', extras=(), first=1, events=0, label_len=4, gid_map=None, symbolic_meta=True, desc_len=2, reserved=False, fixed_plabels=None, fixed_alabels=None, units_per_point=False):
     """S: Syms.  Returns Content whose payload is symbolic."""
     c = Content()
     c.nb_points = P; c.nb_channels = C; c.sub = sub if C else (sub if analog == 'full' else 0)
@@ -43,6 +43,7 @@ def make_content(S, P=2, C=1, sub=2, F=2, labels='equal', analog='full', extras=
     c.gap = S.bv('gap', 16) if symbolic_meta else 10
     nlab = {'equal': P, 'fewer': max(P - 1, 0), 'more': P + 1}[labels]
     plabels = [S.text('plabel', label_len) for _ in range(nlab)]
+    if fixed_plabels is not None: plabels = [list(x.encode()) for x in fixed_plabels]; label_len = max([len(x) for x in plabels] + [0])
     c.point_labels = plabels
     gid = gid_map or {'POINT': 1, 'ANALOG': 2, 'EXTRA': 3}
     dsc = lambda t: S.text(t, desc_len, 1) if symbolic_meta else []
@@ -53,16 +54,17 @@ def make_content(S, P=2, C=1, sub=2, F=2, labels='equal', analog='full', extras=
         Param('DATA_START', 2, [], [0], [], True),
         Param('FRAMES', 2, [], [F], [], False),
         char_param('LABELS', plabels, label_len),
-        char_param('DESCRIPTIONS', [S.text('pd', 3, 1) for _ in range(nlab)], 5),
-        char_param('UNITS', [[ord('m'), ord('m')]], 4, dims_tail=[]),      # 1-D string, space padded
+        char_param('DESCRIPTIONS', [S.text('pd', 3, 1 if symbolic_meta else 0) for _ in range(nlab)], 5),
+        char_param('UNITS', [[ord('m'), ord('m')]], 4, dims_tail=[]) if not units_per_point else char_param('UNITS', [[ord('m'), ord('m')] for _ in range(nlab)], 2),      # 1-D string, space padded (as vendors write it)
     ])
     alabels = [S.text('alabel', label_len) for _ in range(C)]
+    if fixed_alabels is not None: alabels = [list(x.encode()) for x in fixed_alabels]
     c.channel_labels = alabels
     if analog == 'full':
         ana = Group(gid['ANALOG'], 'ANALOG', dsc('gdesc'), True, [
             Param('USED', 2, [], [C], [], True),
             char_param('LABELS', alabels, label_len),
-            char_param('DESCRIPTIONS', [S.text('ad', 2, 1) for _ in range(C)], 2),
+            char_param('DESCRIPTIONS', [S.text('ad', 2, 1 if symbolic_meta else 0) for _ in range(C)], 2),
             Param('GEN_SCALE', 4, [], [S.f32('gs')], [], False),
             Param('SCALE', 4, [C], [S.f32('as') for _ in range(C)], [], False),
             Param('OFFSET', 2, [C], [S.bv('ao', 16) for _ in range(C)], [], False),
